@@ -76,6 +76,15 @@ ROUND6 = """IMPORTANT - already taken: in earlier rounds the changes listed belo
 """
 
 
+ROUND7 = """IMPORTANT - already taken: in earlier rounds the changes listed below were produced for this property. Do NOT repeat them or close variants (same line, same mechanism). This is the SEVENTH round; the checks being evaluated have been hardened against all of them (histories, interleavings, compositions, boundary values, scale in size and in time, environment). Go for -
+  * VALUE COINCIDENCES: the change shows only when two independent values happen to be equal or related - a value equal to its default, a controller value equal to a module index, a slot number equal to a list length, two names equal, a size that is an exact multiple of something, x == y, a pattern source that refers to itself, a link from a module to itself;
+  * UNDER-SAMPLED CORNERS OF THE STATED DOMAIN: read the "Quantified over" text and pick a region a random generator is unlikely to reach - text with astral-plane characters, combining marks or exactly-at-the-limit byte lengths in a field OTHER than those already attacked; negative or extreme coordinates; pattern clones of clones or of empty slots; the Output module in roles usually played by other modules; every unit of a unit-dependent controller; enum members with the highest value; options at their declared maxima together;
+  * ERROR PATHS of the property itself (what must be refused, what must stay unchanged when something is refused, which exception type is promised);
+  * a change in how TWO different properties' mechanisms interact, visible under THIS property only.
+
+"""
+
+
 def main():
     rnd, root = sys.argv[1], sys.argv[2]
     props = [json.loads(l) for l in open(os.path.join(VERIF, "properties.jsonl"))]
@@ -85,14 +94,14 @@ def main():
         files = (p.get("anchors") or {}).get("files", [])
         txt = HEAD.format(wt=wt, pid=pid, title=p.get("title", ""), statement=p.get("statement", ""),
                           quant=(p.get("quantifier") or {}).get("text", ""), files=", ".join(map(str, files)))
-        txt += ROUND6 if rnd == "6" else ROUND5 if rnd == "5" else ROUND4
+        txt += ROUND7 if rnd == "7" else ROUND6 if rnd == "6" else ROUND5 if rnd == "5" else ROUND4
         k = 0
         for d in sorted(glob.glob(os.path.join(VERIF, "seeded", pid + "-*"))):
             nf = os.path.join(d, "notes.md")
             if not os.path.exists(nf):
                 continue
             k += 1
-            txt += "--- earlier change %d ---\n%s\n\n" % (k, open(nf).read().strip()[:330])
+            txt += "--- earlier change %d ---\n%s\n\n" % (k, open(nf).read().strip()[:280])
         os.makedirs(root, exist_ok=True)
         open("%s/%s.prompt.txt" % (root, pid), "w").write(txt)
     print("wrote %d prompts under %s" % (len(props), root))
